@@ -1,5 +1,6 @@
 import Sqljson.Lemmas.LaxTotal
 import Sqljson.Lemmas.ApiGood
+import Sqljson.Props.C05
 /-!
 # C07 (second half) — lax structural totality over whole accessor paths
 
@@ -27,7 +28,8 @@ one lemma per Go function).
   `path_never_panics`, `path_never_cancelled` (a context that is never done);
 * entry points, lax: `lax_accessors_total` (`Query` returns a sequence), `lax_accessors_first`,
   `lax_accessors_exists` (`true`/`false`, never NULL), `lax_accessors_total_ctx` (with a cancellable
-  context, cancellation is the only error); `lax_filters_total`, `lax_filters_exists` for `AccessorF`;
+  context, cancellation is the only error); `lax_filters_total`, `lax_filters_exists` for `AccessorF`
+  (`lax_filters_total_num`: documents with `json.Number`s, under the `strconv` law of C05);
   all for both values of `silent`;
 * entry points, strict: `strict_accessor_error_class` (items, or the suppressible error: never
   `ErrExecution`-only, `ErrInvalid`, or a panic), `strict_accessor_silent` (under `WithSilent`: items),
@@ -59,7 +61,14 @@ theorem env_all (c : Ctx) (hstrict : c.lax = false) : Env (fun _ => True) c fals
 /-- `AccessorF` paths over plain documents -/
 theorem env_plain (c : Ctx) (hroot : plainOK c.root = true)
     (hre : ∀ p fl t, (c.regexMatch p fl t).isSome = true) : Env (fun v => plainOK v = true) c true :=
-  ⟨docClass_plainOK, hroot, fun _ _ h => (plainOK_arr h).1, fun _ => filterOK_plain c hre⟩
+  ⟨docClass_plainG false, hroot, fun _ _ h => (plainG_arr h).1, fun _ => filterOK_plain c hre⟩
+
+/-- `AccessorF` paths over plain documents with `json.Number`s, given the `strconv` law of C05 -/
+theorem env_plainNum (c : Ctx) (hroot : plainNumOK c.root = true)
+    (hre : ∀ p fl t, (c.regexMatch p fl t).isSome = true) (hlaw : C05.IntTextIsFloat) :
+    Env (fun v => plainNumOK v = true) c true :=
+  ⟨docClass_plainG true, hroot, fun _ _ h => (plainG_arr h).1,
+   fun _ => filterOK_plainNum c hre (fun op l r => C05.compare_never_panics hlaw c op l r)⟩
 
 /-! ## the executor -/
 
@@ -258,6 +267,13 @@ theorem lax_filters_total (fuel : Nat) (a : AST) (doc : Item) (o : Opts) (hlax :
     (hre : ∀ p fl t, (o.regexMatch p fl t).isSome = true) :
     (∃ xs, queryWith fuel a doc o = .items xs) ∨ queryWith fuel a doc o = .outOfFuel :=
   query_total fuel a doc o (env_plain _ hdoc hre) hacc hdoc hlax hb
+
+/-- the same for documents decoded with `UseNumber`, under the `strconv` law `C05.IntTextIsFloat` -/
+theorem lax_filters_total_num (fuel : Nat) (a : AST) (doc : Item) (o : Opts) (hlax : a.lax = true)
+    (hacc : AccessorF a.root = true) (hdoc : plainNumOK doc = true) (hb : o.budget = none)
+    (hre : ∀ p fl t, (o.regexMatch p fl t).isSome = true) (hlaw : C05.IntTextIsFloat) :
+    (∃ xs, queryWith fuel a doc o = .items xs) ∨ queryWith fuel a doc o = .outOfFuel :=
+  query_total fuel a doc o (env_plainNum _ hdoc hre hlaw) hacc hdoc hlax hb
 
 theorem lax_filters_exists (fuel : Nat) (a : AST) (doc : Item) (o : Opts) (hlax : a.lax = true)
     (hacc : AccessorF a.root = true) (hdoc : plainOK doc = true) (hb : o.budget = none)
